@@ -467,6 +467,11 @@ class Interp(object):
             st.frames[-1][target.id] = v
             return [(st, "next", None)]
         if isinstance(target, (ast.Tuple, ast.List)):
+            if isinstance(v, Ref) and st.obj(v).kind == "list" and st.obj(v).items is not None:
+                items = tuple(st.obj(v).items)
+                if len(items) != len(target.elts):
+                    return self.raise_exc(st, "ValueError", target, "unpack", "unpack %d values into %d names" % (len(items), len(target.elts)))
+                v = items
             if isinstance(v, (tuple, list)) and len(v) == len(target.elts):
                 states = [st]
                 for t, x in zip(target.elts, v):
